@@ -194,7 +194,10 @@ class Scope(object):
         self.parent.annotations.update(self.annotations)
       else:
         # TODO(mdan): This is not accurate.
-        self.parent.read.update(self.read - self.bound)
+        # Names declared nonlocal/global are bound here, but they denote a
+        # variable of an enclosing scope: reading them reads that variable.
+        self.parent.read.update(
+            self.read - (self.bound - self.nonlocals - self.globals))
         self.parent.annotations.update(self.annotations - self.bound)
     self.is_final = True
 
